@@ -616,6 +616,15 @@ def gen(rng, tier):
                         for kind in ("invert", "append1", "reverse"):
                             yield SEP.join(["C04", "hist", f"{kd}:{cd}:{vd}", f"{ks}:{cs}:{vs}", f"mutobj:0:{mk_}:1", f"mut:0:{kind}", f"mut:1:{kind}",
                                             f"obj:Bits:1", f"mutobj:0:{mk_}:1", f"mut:1:{kind}", f"mut:0:{kind}", f"str:Bits:{vs if vs != '-' else '1'}"])
+    # an object created through a value keyword, then every derivation route from it, then mutation of either side
+    for dtype in ("bytes", "uint", "hex", "bin", "int", "uintle"):
+        bits = "1010010111000011"
+        for c in CLASS_NAMES:
+            for route in _routes(0, c, bits, rng):
+                if route.startswith("toba"):
+                    continue
+                k1, k2 = rng.choice(KINDS), rng.choice(KINDS)
+                yield SEP.join(["C04", "hist", f"newkw:{c}:{dtype}:{bits}", route, f"mut:0:{k1}", f"mut:1:{k2}", f"mut:0:invert"])
     # value keywords / property assignment, then mutate, then build the same value again
     for dtype in ("uint", "int", "uintbe", "intbe", "uintle", "intle", "hex", "bin", "bytes"):
         for bits in ("00000101", "1111111100000001", "10000000"):
